@@ -201,6 +201,22 @@ CLAIMS = {
    note=NOTE + "C05: numpyro handler semantics assumed and validated per site; the rendered image is taken from the real renderer (render layer tied separately).",
    technique="Lean 4 theorems (factorisation of the joint density, change of variables by induction over entries, site-list lemmas) + full trace correspondence (sites, prior terms, likelihood terms, total) + scipy oracle",
    design="7/C05"),
+ "C13": dict(
+   text=("Proof, partial. Proved on the purge chain of find_MAP translated from the source (if 'Loss' in key: skip / elif key == 'model': raw / elif not "
+         "(base|auto|unwrapped|factor|loss in key): rounded), the regenerated parameter tables and the fitter site model: for all 7 × 3 × 10 (profile, sky, loss) "
+         "configurations, with and without the model image, the returned key list is exactly the profile's parameters, the sky parameters, 'model' and the "
+         "loss's exposed nuisance quantities (kernel-evaluated over the whole finite table); every unit-scale internal site p_base is removed for every "
+         "parameter name p (string lemma, unbounded); 'model' is stored raw and scalars rounded (observation proved as an example: with a non-empty suffix "
+         "'model_a' misses the equality test and is rounded like a scalar); the multi-source regrouping puts under source_i exactly the parameters of source "
+         "i's catalogue type and leaves sky/nuisance/model at top level (all pairs of types); the returned image and parameters come from one conditioned "
+         "trace, so image = render(returned parameters) + sky (C05), and the point is the first lowest-loss state of the last round (C14). Not proved "
+         "(optimisation quality, outside any model): logp(MAP) ≥ logp(truth) − 0.5, ±2 % single-parameter moves, bitwise repeatability — observed on full-length "
+         "real fits of synthetic images. Tie: the real find_MAP (optimiser shortened) over profile / sky / loss / renderer configurations, single and multi: "
+         "the real trace's site names filtered and regrouped by the Lean model vs the returned dictionary; returned image vs re-render of the returned "
+         "parameters (1e-3 of the peak)."),
+   note=NOTE + "C13: Adam/ELBO/jit not modelled; optimisation-quality clauses are observations. FitMulti.find_MAP regrouping ignores prior.suffix (observation; the property's multi-source clause is un-suffixed).",
+   technique="Lean 4 theorems (kernel-decided key sets over all configurations on a purge chain translated from source; string lemma for *_base; regroup partition) + structural correspondence with the real find_MAP + real-fit oracle",
+   design="7/C13"),
 }
 
 checks, na = [], []
